@@ -21,7 +21,8 @@ Definition ENOTDIR := 20. Definition EISDIR := 21. Definition EINVAL := 22. Defi
 Definition ERANGE := 34. Definition ENAMETOOLONG := 36. Definition ENOSYS := 38. Definition ENOTEMPTY := 39.
 Definition ELOOP := 40. Definition ENODATA := 61. Definition EOPNOTSUPP := 95. Definition ESTALE := 116.
 Definition EUNMODELLED := 9999.
-Definition EMULTI := 9998.        (* a multi-component path reached a system call: resolution not modelled *)
+Definition EMULTI := 9998.
+Definition EFOLLOW := 9996.       (* openat(O_CREAT) without O_EXCL: a symlink in the final component would be followed: not modelled, not confined *)        (* a multi-component path reached a system call: resolution not modelled *)
 
 Inductive res (A : Type) := Ok (a : A) | Err (e : N).
 Arguments Ok {A} a. Arguments Err {A} e.
@@ -269,9 +270,12 @@ Definition sys_mknodat (c : creds) (h : host) (d : N) (n : name) (mode rdev : N)
         let (i, h') := create_node c h d dv n k (init_mode c dv mode) in (Ok i, h')
   end.
 
-(* openat(dirfd, name, flags | O_CREAT | O_EXCL, mode): never follows, fails if the name exists *)
+(* openat(dirfd, name, flags, mode) with O_CREAT in flags.  Only with O_EXCL does the kernel refuse to follow a
+   symlink in the final component (and fail if the name exists): that is the form modelled, and the form the
+   confinement proof relies on; without O_EXCL the outcome is EFOLLOW (the call may leave the directory). *)
 Definition sys_openat_creat_excl (c : creds) (h : host) (d : N) (n : name) (flags mode : N) : res N * host :=
-  if has flags O_DIRECTORY then (Err EINVAL, h)
+  if negb (has flags O_EXCL) then (Err EFOLLOW, h)
+  else if has flags O_DIRECTORY then (Err EINVAL, h)
   else match create_check c h d n with
   | Err e => (Err e, h)
   | Ok dv => let (i, h') := create_node c h d dv n (KReg []) (init_mode c dv mode) in (Ok i, h')
